@@ -155,6 +155,13 @@ NOTES = {
     "C16-d": ("error slot table of 65536 entries indexed by a wrapping counter", "first run: reported through the regenerated thread_local obligation only (no failing input); new op HS (one live thread, n short-lived failing threads one after the other) with n = 300 / 4097 in the quick tier and 65535 / 65536 / 65537 / 131073 in the thorough tier; the search that a broken obligation triggers runs the thorough family, so the quick check now reports it with the 65536-thread input (72 s)"),
     "C17-d": ("compress() reuses a per-thread dictionary whose clear() forgets the entries beyond the write cursor after it wrapped", "caught at once (operation pairs after 32+-suffix packets, added for C17-a/c; also the thread_local inventory)"),
     "C18-d": ("pointer-to-pointer fast path decrements the hop budget without testing it: mixed label/pointer chains wrap the counter (release) or panic (debug)", "first run: only the regenerated inventory and the step-count correspondence broke (no failing input); added chains of mixed shape (0..4 pointer-to-label hops before / after a run of 8..19, 40, 400, 4000 back-to-back pointers) - now caught with an input"),
+    "C03-e": ("copy_raw_name returns the length of the whole destination vector instead of the length of the name", "not run before the strengthening (harness changed after reading the description): the raw-name accessor is now called on an empty vector and on one that already holds five bytes, and both results must agree - caught"),
+    "C04-e": ("set_raw_name keeps the cached question when the new name differs from the old one only by letter case", "not run before the strengthening: C04's rename histories now include case-only changes of the question name - caught"),
+    "C07-e": ("replace_raw tests name[offset] == source[0] instead of walking the labels to the offset", "caught at once (byte-offset near misses added for C07-d)"),
+    "C08-e": ("set_raw_name sizes the record from the length of the whole slice it was given instead of the encoded name it starts with", "MISSED at first; renames now pass names followed by 1 .. 240 bytes of junk after the root label a quarter of the time - now caught"),
+    "C09-e": ("resize_rr shifts the EDNS offset when the record resized starts exactly at it (`>=` for `>`): OPT without options followed by a record", "first run: correspondence only, no failing input; C09 now also compares where the object places the EDNS data with where they are in its bytes - now caught with an input"),
+    "C10-e": ("room for the new record computed from the length before decompression", "caught at once"),
+    "C15-e": ("set_name through the table refuses when text length + default-zone length > 255, also for absolute names, which ignore the zone", "not run before the strengthening: facade walks now call set_name (action N) with relative / absolute, short / 200..253-byte names, with and without a default zone - caught"),
     "C17-c": ("compress() output built in a thread-local scratch buffer that is not cleared above 64 KiB of capacity", "first run: only the regenerated inventory obligation broke; added small operations right after 33 .. 65 KB ones - now caught with an input"),
 }
 
